@@ -177,7 +177,15 @@ def judge(case: Dict[str, Any], status: str, r: Any) -> List[Tuple[str, str]]:
         out.append(("import-failed:" + r["import"].split(":", 1)[0], r["import"][:300]))
         return out
     if r["incomplete"]:
-        out.append(("model-incomplete", ", ".join(r["incomplete"][:5])))
+        # which module: the fragments module rebuilds only the top-level class of every fragment (finding F15);
+        # an incomplete class anywhere else is a different failure
+        frag_mod = (case.get("config") or {}).get("fragments_module_name", "fragments")
+        in_frag = [c for c in r["incomplete"] if c.split(".", 1)[0] == frag_mod]
+        other = [c for c in r["incomplete"] if c.split(".", 1)[0] != frag_mod]
+        if in_frag:
+            out.append(("model-incomplete:fragments-module", ", ".join(in_frag[:5])))
+        if other:
+            out.append(("model-incomplete:other-module", ", ".join(other[:5])))
     if r["unresolved"]:
         out.append(("all-unresolved", ", ".join(r["unresolved"][:5])))
     return out
